@@ -516,7 +516,6 @@ func (c *checkCtx) writeEvidence() {
 	os.WriteFile(filepath.Join(verifDir(), "evidence", spec.ID+".json"), b, 0o644)
 }
 
-func cmdSelftest(args []string) int { return 0 }
 
 // replayRego re-runs a regosym counterexample (profile.yaml + data.jsonld) through the real
 // entry point built from /repo's working tree and compares with the recorded reference verdict.
